@@ -218,6 +218,25 @@ def builtin_cases():
     c.append(("p :- atom_number('12',12.0).", "p", [], True))
     c.append(("p(X) :- atom_number(X,12).", "p(X)", ["12"], True))
     c.append(("p(X) :- atom_number(X,1.5).", "p(X)", ["1.5"], True))
+    # partially instantiated terms: the builtin must pass its bindings on
+    c.append(("p(X,Y) :- foo(X,b) =.. [foo,a,Y].", "p(X,Y)", ["a,b"], True))
+    c.append(("p(X) :- T = f(X), T =.. [f,2].", "p(X)", ["2"], True))
+    c.append(("p(X) :- T = f(X), T =.. [f,2], q(X).\nq(1). q(2). q(3).", "p(X)", ["2"], True))
+    c.append(("p :- f(a,b) =.. [f,a,c].", "p", [], True))
+    c.append(("p :- f(a,b) =.. [g,a,b].", "p", [], True))
+    c.append(("p(X) :- arg(1,f(X,b),a).", "p(X)", ["a"], True))
+    c.append(("p(X) :- arg(2,f(a,g(X)),g(c)).", "p(X)", ["c"], True))
+    c.append(("p(N,A) :- functor(f(X,b),N,A).", "p(N,A)", ["f,2"], True))
+    # arithmetic comparison evaluates BOTH sides, also when they are the same term
+    for op in ("=:=", "=\\=", "<", ">", "=<", ">="):
+        c.append(("p :- 1/0 %s 1/0." % op, "p", "error", True))
+        c.append(("p :- X = a, X %s X." % op, "p", "error", True))
+        c.append(("p :- 3 mod 0 %s 3 mod 0." % op, "p", "error", True))
+    c.append(("p :- 2+1 =:= 2+1.", "p", ["yes"], True))
+    c.append(("p :- 2+1 =\\= 2+1.", "p", [], True))
+    c.append(("p :- nan =:= nan.", "p", [], True))
+    c.append(("p :- nan =\\= nan.", "p", ["yes"], True))
+    c.append(("p :- inf =:= inf.", "p", ["yes"], True))
     c.append(("p(L) :- f(a,b) =.. L.", "p(L)", ["[f, a, b]"], True))
     c.append(("p(L) :- foo =.. L.", "p(L)", ["[foo]"], True))
     c.append(("p(T) :- T =.. [g,1,2].", "p(T)", ["g(1,2)"], True))
